@@ -1,2 +1,137 @@
-(** C03 placeholder *)
-From FF Require Import Pmm.Bitmap.
+(** C03 — frame accounting: all usable RAM allocatable, bad frees rejected, no crash.
+    Statements only; every proof is [exact <lemma from Pmm/TopProofs.v>].
+    Vocabulary as in Props/C01.v.  Go run-time panics (bitmap index out of range) are the explicit outcomes
+    [InitPanic] / [FreePanic] of the model, a loop that cannot end is [InitHang], allocator state outside
+    the reserved block is [InitStray]; AllocFrame has no panicking operation. *)
+From Coq Require Import NArith List Sorted Bool.
+From FF Require Import Lib.Word Gen.Consts_mm_pmm Pmm.Boot Pmm.BootProofs Pmm.Bitmap Pmm.BitmapProofs Pmm.HistoryProofs
+  Pmm.InitProofs Pmm.TopProofs Props.C01_examples.
+Import ListNotations.
+Local Open Scope N_scope.
+
+(** Init never crashes: for every well-formed map and kernel placement and every behaviour of the two seams
+    the outcome is success or one of the three errors — never a panic, a hang or a stray write. *)
+Theorem C03_init_total :
+  forall (m : memmap) (kstart kend limit mapfail : N),
+    WFmap m -> WFkernel m kstart kend -> small_map m ->
+    match fst (pmm_init m kstart kend limit mapfail) with
+    | InitOk _ _ | InitErrReserve | InitErrMap | InitErrOOM => True
+    | InitPanic | InitHang | InitStray => False
+    end.
+Proof. exact init_total. Qed.
+Print Assumptions C03_init_total.
+
+(** With seams that do not fail, Init succeeds or reports out-of-memory. *)
+Theorem C03_init_ok_or_oom :
+  forall (m : memmap) (kstart kend : N),
+    WFmap m -> WFkernel m kstart kend -> small_map m ->
+    match fst (pmm_init m kstart kend two64 0) with
+    | InitOk _ _ | InitErrOOM => True
+    | _ => False
+    end.
+Proof. exact init_ok_or_oom. Qed.
+Print Assumptions C03_init_ok_or_oom.
+
+(** After success: totalPages is the number of whole frames of available RAM and
+    totalPages - reservedPages is the number of usable frames (in a pool, not kernel, not early-boot). *)
+Theorem C03_init_stats :
+  forall (m : memmap) (kstart kend limit mapfail : N) (a0 : balloc) (b0 : bstate) (obs : init_obs),
+    WFmap m -> WFkernel m kstart kend -> small_map m ->
+    pmm_init m kstart kend limit mapfail = (InitOk a0 b0, obs) ->
+    a_total a0 = total_frames m /\ a_reserved a0 <= a_total a0 /\
+    a_total a0 - a_reserved a0 = usable_count m kstart kend (early_frames obs).
+Proof.
+  intros m kstart kend limit mapfail a0 b0 obs Hm Hk Hs Hi.
+  exact (init_stats m kstart kend limit mapfail Hm Hk Hs a0 b0 obs Hi).
+Qed.
+Print Assumptions C03_init_stats.
+
+(** Exactly the usable frames can be allocated, then out-of-memory is reported. *)
+Theorem C03_drain_count :
+  forall (m : memmap) (kstart kend limit mapfail : N) (a0 : balloc) (b0 : bstate) (obs : init_obs),
+    WFmap m -> WFkernel m kstart kend -> small_map m ->
+    pmm_init m kstart kend limit mapfail = (InitOk a0 b0, obs) ->
+    exists fs, N.of_nat (length fs) = usable_count m kstart kend (early_frames obs) /\
+      map fst (run a0 (repeat OpAlloc (length fs + 1))) = map (fun f => RAlloc (Some f)) fs ++ [RAlloc None].
+Proof.
+  intros m kstart kend limit mapfail a0 b0 obs Hm Hk Hs Hi.
+  exact (drain_count m kstart kend limit mapfail Hm Hk Hs a0 b0 obs Hi).
+Qed.
+Print Assumptions C03_drain_count.
+
+(** At every step of every history the reported totals agree with the usable frames:
+    totalPages stays the number of available frames and
+    (totalPages - reservedPages) + (frames currently held) = usable frames;
+    a free succeeds only while a frame is held. *)
+Theorem C03_history_stats :
+  forall (m : memmap) (kstart kend limit mapfail : N) (a0 : balloc) (b0 : bstate) (obs : init_obs) (ops : list op),
+    WFmap m -> WFkernel m kstart kend -> small_map m ->
+    pmm_init m kstart kend limit mapfail = (InitOk a0 b0, obs) ->
+    history_ok m kstart kend (early_frames obs) ops ->
+    stats_ok (total_frames m) (usable_count m kstart kend (early_frames obs)) 0 (run a0 ops).
+Proof.
+  intros m kstart kend limit mapfail a0 b0 obs ops Hm Hk Hs Hi Ho.
+  exact (history_stats m kstart kend limit mapfail Hm Hk Hs a0 b0 obs Hi ops Ho).
+Qed.
+Print Assumptions C03_history_stats.
+
+(** The contract of every call in every history ([trace_ok], Pmm/HistoryProofs.v), with [H] the frames held
+    before the call and R0 = kernel image or early-boot frame:
+    - AllocFrame -> frame f: f is in a pool, not R0, not in H, and is the LOWEST such frame;
+      totalPages unchanged, reservedPages + 1;
+    - AllocFrame -> out-of-memory: state unchanged and every non-R0 pool frame is in H;
+    - FreeFrame f -> ok: f was in H; reservedPages - 1; afterwards f is out of H, i.e. allocatable again
+      (the next AllocFrame returns it iff it is the lowest free frame);
+    - FreeFrame f -> not managed: state unchanged and f is in no pool;
+    - FreeFrame f -> already free: state unchanged, f is in a pool, not R0 and not in H;
+    - a panic is impossible. *)
+Theorem C03_history_contract :
+  forall (m : memmap) (kstart kend limit mapfail : N) (a0 : balloc) (b0 : bstate) (obs : init_obs) (ops : list op),
+    WFmap m -> WFkernel m kstart kend -> small_map m ->
+    pmm_init m kstart kend limit mapfail = (InitOk a0 b0, obs) ->
+    history_ok m kstart kend (early_frames obs) ops ->
+    trace_ok (pool_ranges m)
+             (fun g => kernelb kstart kend g || memb g (early_frames obs))
+             (total_frames m) (a_reserved a0) a0 [] (run a0 ops) ops.
+Proof.
+  intros m kstart kend limit mapfail a0 b0 obs ops Hm Hk Hs Hi Ho.
+  exact (history_trace m kstart kend limit mapfail Hm Hk Hs a0 b0 obs Hi ops Ho).
+Qed.
+Print Assumptions C03_history_contract.
+
+(** One FreeFrame call from any state satisfying the representation invariant. *)
+Theorem C03_free_step :
+  forall (R : N -> bool) (a : balloc) (f : N),
+    Inv R a ->
+    match bitmap_free a f with
+    | (a', FreeOk) =>
+        managed (a_pools a) f /\ R f = true /\ Inv (upd R f false) a' /\
+        ranges (a_pools a') = ranges (a_pools a) /\
+        a_total a' = a_total a /\ a_reserved a' + 1 = a_reserved a
+    | (a', FreeNotManaged) => a' = a /\ ~ managed (a_pools a) f
+    | (a', FreeDoubleFree) => a' = a /\ managed (a_pools a) f /\ R f = false
+    | (a', FreePanic) => False
+    end.
+Proof. exact bitmap_free_spec. Qed.
+Print Assumptions C03_free_step.
+
+(** Without the restriction [history_ok] the contract is FALSE for the code as it is (known finding
+    c03:free-of-init-reserved-frame-accepted): a frame reserved at initialisation for the kernel image or by
+    the early-boot allocator was never handed to a caller, yet FreeFrame accepts it (the bitmap cannot tell
+    it from an allocated frame). Witness: the example map, FreeFrame(1) of the early-boot frame succeeds. *)
+Definition C03_full_history_contract : Prop :=
+  forall (m : memmap) (kstart kend limit mapfail : N) (a0 : balloc) (b0 : bstate) (obs : init_obs) (ops : list op),
+    WFmap m -> WFkernel m kstart kend -> small_map m ->
+    pmm_init m kstart kend limit mapfail = (InitOk a0 b0, obs) ->
+    trace_ok (pool_ranges m)
+             (fun g => kernelb kstart kend g || memb g (early_frames obs))
+             (total_frames m) (a_reserved a0) a0 [] (run a0 ops) ops.
+
+Theorem C03_full_history_contract_refuted : ~ C03_full_history_contract.
+Proof.
+  intros H.
+  specialize (H pm_map pm_kstart pm_kend two64 0 pm_a0 pm_b0 (snd pm_init_result) [OpFree 1]
+                C01_map_nonvacuous C01_kernel_nonvacuous C01_small_nonvacuous (proj1 C01_init_nonvacuous)).
+  vm_compute in H. destruct H as [[] _].
+Qed.
+Print Assumptions C03_full_history_contract_refuted.
